@@ -42,6 +42,10 @@ FORBIDDEN = re.compile(
 
 ENV = dict(os.environ)
 ENV.update({"CARGO_NET_OFFLINE": "true", "PIP_NO_INDEX": "1", "GOPROXY": "off"})
+# the driver reads the holiday source files itself (C10): always those of the checkout under test
+ENV["OH_HOLIDAYS_PUBLIC"] = os.path.join(REPO, "opening-hours/data/holidays_public.txt")
+ENV["OH_HOLIDAYS_SCHOOL"] = os.path.join(REPO, "opening-hours/data/holidays_school.txt")
+ENV["VERIF_REPO"] = REPO
 
 sys.path.insert(0, VERIF)
 from props import PROPS  # noqa: E402  (per-property configuration)
